@@ -82,3 +82,16 @@ Theorem C05_wrappers_transparent : forall (w : world) ws r sc v st,
   target w (S (List.length ws)) (hd r ws) sc (v, st) = (RVal r, (r :: rev ws ++ v, st)).
 Proof. exact target_wrappers_transparent. Qed.
 Print Assumptions C05_wrappers_transparent.
+(* the helpers behind the traversal's call handling, regenerated as well (frames matched literally): parentheses are formatting only, and the
+   argument of a call is a target only when the head of the (curried, parenthesised) callee is a lambda, an identifier or a select *)
+Theorem C05_strip_not_paren : forall N (cls_of : N -> cls) attr_value fuel e r, strip_parentheses N cls_of attr_value fuel e = RVal r -> cls_of r <> CParen.
+Proof. exact strip_not_paren. Qed.
+Print Assumptions C05_strip_not_paren.
+Theorem C05_callee_head_decides : forall N (cls_of : N -> cls) attr_value attr_name is_select f c, cls_of c <> CParen -> cls_of c <> CCall ->
+  supports_attrset_argument N cls_of attr_value attr_name is_select (S (S f)) (Some c) = RVal (is_cls N cls_of c CFunDef || is_cls N cls_of c CIdent || is_select c).
+Proof. exact supports_head. Qed.
+Print Assumptions C05_callee_head_decides.
+Theorem C05_callee_curried : forall N (cls_of : N -> cls) attr_value attr_name is_select f c, cls_of c = CCall ->
+  supports_attrset_argument N cls_of attr_value attr_name is_select (S (S f)) (Some c) = supports_attrset_argument N cls_of attr_value attr_name is_select (S f) (attr_name c).
+Proof. exact supports_curried. Qed.
+Print Assumptions C05_callee_curried.
